@@ -70,7 +70,8 @@ def run_enumerated(cases):
             else:
                 top = {"outside": outside, "root1": roots[0], "root2": roots[1], "root3": roots[2],
                        "link_into_root": os.path.join(base, "link_in"),
-                       "link_out_of_root": os.path.join(roots[1], "link_out"), "outside_named_base": named}[c["place"]]
+                       "link_out_of_root": os.path.join(roots[1], "link_out"), "outside_named_base": named,
+                       "root_prefix_sibling": roots[0] + "-extra"}[c["place"]]
                 d = os.path.join(top, *c["dirs"])
                 os.makedirs(d, exist_ok=True)
                 fn = os.path.join(d, c["stem"] + ".py")
@@ -308,6 +309,14 @@ def custom_filter_scenarios(seed, n, tier):
     for i, b in enumerate(beh):
         admit = sorted(rng.sample(names, rng.randint(0, len(names))))
         scs.append({"tid": i + 1, "hist": b["hist"], "rate": 0, "k": 0, "seed": seed * 31 + i, "admit": admit})
+    # directed: two code objects of one file with the same short name, called in one session in both orders, the filter
+    # admitting exactly one of them (by qualified name)
+    call = lambda i: [{"op": "Call", "f": "F", "id": i, "v": "int", "catch": True, "draw": 0},  # noqa: E731
+                      {"op": "Return", "f": "expr", "id": i, "v": "int", "catch": True, "draw": 0}]
+    for first, second in (("Kls.m_over(super)", "Sub.m_over"), ("Sub.m_over", "Kls.m_over(super)")):
+        for admit in (["Kls.m_over"], ["Sub.m_over"]):
+            scs.append({"tid": len(scs) + 1, "hist": call(1) + call(2) + call(3), "rate": 0, "k": 0, "seed": seed,
+                        "admit": admit, "force": {"1": first, "2": second, "3": first}})
     return scs
 
 
@@ -362,7 +371,7 @@ def main(pid, tier, seed, replay=None):
     for v in tv:
         for clause in v.get("viol", []):
             if clause in ("OnlyAdmitted", "MissingLog", "MissingOrOutOfOrder", "SpuriousLog"):
-                run.violation({"clause": "CustomFilter:" + clause}, {k: sc_by[v["tid"]][k] for k in ("hist", "seed", "admit", "rate", "k")})
+                run.violation({"clause": "CustomFilter:" + clause}, {k: sc_by[v["tid"]][k] for k in ("hist", "seed", "admit", "rate", "k", "force") if k in sc_by[v["tid"]]})
     plan.append({"family": "custom filters: random subsets of the scripted program's functions (tracer replay)", "cases": len(trecs)})
     from . import replay_run
     extended = None if replay else replay_run.extended_stage(tier, seed)
